@@ -339,6 +339,7 @@ class SqliteIndex(Index):
         row = BaseCollectionManifest.make_manifest_row(
             ss, None, include_signature=False
         )
+        row["seed"] = ss.minhash.seed
         self.manifest._insert_row(c, row, call_is_from_index=True)
 
         # retrieve ID of row for retrieving hashes:
